@@ -1,11 +1,13 @@
 """C15 — Introspection-JSON and SDL descriptions of a schema give the same results (route symmetry only)."""
 import harness
-from facts import (norm, call_name, short, subnodes, lit_value, matches_on, arm_variants, field_reads, peel_ty, str_lits_in)
+from facts import (norm, call_name, short, subnodes, lit_value, matches_on, arm_variants, field_reads, peel_ty, str_lits_in, pat_lits,
+                   AnchorMissing)
 from prov import Prov, has_field, has_call
-from templates import variant_table, enclosing_contexts, field_coverage, reads_in, LOSSY_OR_REORDERING
+from templates import variant_table, enclosing_contexts, field_coverage, reads_in, inlined, LOSSY_OR_REORDERING
 
 CLI = "nitrogql_cli::"
 IN = "nitrogql_introspection::introspection::"
+INC = "nitrogql_introspection::"
 SEM = "nitrogql_semantics::"
 TSD = "graphql_type_system::definitions::"
 TS = "nitrogql_ast::type_system::"
@@ -14,16 +16,41 @@ KINDS = {"SCALAR": "Scalar", "OBJECT": "Object", "INTERFACE": "Interface", "UNIO
 OPS = {"Query": "query_type", "Mutation": "mutation_type", "Subscription": "subscription_type"}
 
 
+def anchor(P, name, role):
+    """the function an anchor names; when it was renamed / turned into a method, the unique non-test function that plays the
+    same role (signature types), else AnchorMissing (-> the rule is UNDECIDED)"""
+    f = P.fn(name, required=False)
+    if f is not None:
+        return f
+    cands = [g for g in P.fns.values() if not g.derived and "::tests" not in g.path and g.kind in ("Fn", "AssocFn") and role(g)]
+    if len(cands) == 1:
+        return cands[0]
+    raise AnchorMissing("function `%s` not found, and %d functions play its role" % (name, len(cands)))
+
+
+def _is_call_to(x, suffixes):
+    return x.get("k") in ("Call", "MethodCall") and (call_name(x) or "").endswith(suffixes)
+
+
 def r15a(P, R):
     """every match over LoadedSchema treats both routes alike, the introspection arm differing only by the conversion"""
     n = 0
-    for f in P.fns.values():
-        if not f.path.startswith(CLI) or "::tests" in f.path or f.derived:
+    dispatchers = []
+    for f0 in sorted(P.fns.values(), key=lambda g: g.path):
+        if not f0.path.startswith(CLI) or "::tests" in f0.path or f0.derived:
             continue
-        for m in matches_on(f, "LoadedSchema"):
+        if not matches_on(f0, "LoadedSchema"):
+            continue
+        f = inlined(P, f0)
+        k = 0
+        for m in matches_on(f0, "LoadedSchema"):
+            k += 1
+            key = "route:%s#%d" % (short(f0.path), k)
+            # the same match in the copy with helper bodies attached
+            m = next((x for x in matches_on(f, "LoadedSchema") if x["s"] == m["s"]), m)
             tab = variant_table(m)
-            if set(tab) - {"_"} != {"GraphQL", "Introspection"}:
-                R.violated("R15-a", "route:%s:%d" % (short(f.path), m["s"][0]), "%s matches LoadedSchema with arms %s" % (f.path, sorted(tab)), loc=f.loc())
+            if not {"GraphQL", "Introspection"} <= set(tab):
+                R.undecided("R15-a", key, "%s inspects LoadedSchema with arms %s only; the treatment of the other route is not decided" % (f0.path, sorted(tab)), loc=f0.loc())
                 continue
             n += 1
 
@@ -35,58 +62,179 @@ def r15a(P, R):
                         out.add(short(c))
                 return out
             g, i = callees(tab["GraphQL"]), callees(tab["Introspection"])
-            conv_i = any((call_name(x) or "").endswith(("type_system_to_ast::type_system_to_ast", "ast_to_type_system::ast_to_type_system"))
-                         for x in subnodes(tab["Introspection"]["body"]) if x.get("k") == "Call")
-            key = "route:%s#%d" % (short(f.path), n)
-            if f.name in ("run_generate",):
-                R.check("R15-a", key, g == i and conv_i, "both routes reach %s; introspection converts first" % sorted(g),
-                        "%s: the SDL arm reaches %s, the introspection arm %s (conversion present: %s): the two schema routes are processed differently"
-                        % (f.path, sorted(g), sorted(i), conv_i), loc=f.loc())
+            conv_i = any(_is_call_to(x, ("type_system_to_ast::type_system_to_ast", "ast_to_type_system::ast_to_type_system"))
+                         for x in subnodes(tab["Introspection"]["body"]))
+            prints = any(c.startswith(("nitrogql_printer::", "<nitrogql_printer::")) or "Printer::" in c for c in
+                         (call_name(x) or "" for a in (tab["GraphQL"], tab["Introspection"]) for x in subnodes(a["body"]) if x.get("k") in ("Call", "MethodCall")))
+            if prints:
+                # a match that selects what is printed: both routes must reach the same printers
+                if g == i and conv_i:
+                    R.holds("R15-a", key, "both routes reach %s; introspection converts first" % sorted(g), loc=f0.loc())
+                elif g != i:
+                    R.violated("R15-a", key, "%s: the SDL arm reaches %s, the introspection arm %s (conversion present: %s): the two schema routes "
+                               "are processed differently" % (f0.path, sorted(g), sorted(i), conv_i), loc=f0.loc())
+                else:
+                    R.undecided("R15-a", key, "%s: both arms reach %s but no Schema<->AST conversion is visible in the introspection arm" % (f0.path, sorted(g)), loc=f0.loc())
             else:
-                R.holds("R15-a", key, "routes: SDL %s / introspection %s" % (sorted(g), sorted(i)), loc=f.loc())
+                R.holds("R15-a", key, "routes: SDL %s / introspection %s" % (sorted(g), sorted(i)), loc=f0.loc())
+            # a dispatcher: a method of LoadedSchema that applies one function parameter per route
+            if (f0.self_adt or "").endswith("LoadedSchema") or "LoadedSchema" in (f0.self_ty or ""):
+                pv = Prov(f0)
+                ga = {a[1] for a in pv.atoms(tab["GraphQL"]["body"]) if a[0] == "param"} - {"self"}
+                ia = {a[1] for a in pv.atoms(tab["Introspection"]["body"]) if a[0] == "param"} - {"self"}
+                if ga or ia:
+                    dispatchers.append(f0)
+                    if ga and ia and not (ga & ia):
+                        R.holds("R15-a", "dispatch:" + short(f0.path), "applies `%s` to the SDL route and `%s` to the introspection route" % (sorted(ga), sorted(ia)), loc=f0.loc())
+                    elif ga and ga == ia and len(ga) == 1:
+                        R.violated("R15-a", "dispatch:" + short(f0.path), "%s applies the same parameter %s to both routes: the other function is never used" % (f0.path, sorted(ga)), loc=f0.loc())
+                    else:
+                        R.undecided("R15-a", "dispatch:" + short(f0.path), "%s: SDL arm uses %s, introspection arm uses %s" % (f0.path, sorted(ga), sorted(ia)), loc=f0.loc())
     R.floor("R15-a", "matches over LoadedSchema", n, 6)
-    mi = P.fn(CLI + "schema_loader::LoadedSchema::map_into")
-    for m in matches_on(mi, "LoadedSchema"):
-        tab = variant_table(m)
-        pv = Prov(mi)
-        ok = ("param", "graphql") in pv.atoms(tab["GraphQL"]["body"]) and ("param", "introspection") in pv.atoms(tab["Introspection"]["body"]) \
-            and ("param", "introspection") not in pv.atoms(tab["GraphQL"]["body"])
-        R.check("R15-a", "map_into", ok, "map_into applies the matching function per route", "LoadedSchema::map_into applies the wrong function to a route", loc=mi.loc())
+    R.floor("R15-a", "per-route dispatcher of LoadedSchema", len(dispatchers), 1)
     # the checker/operation printer receive a Schema on both routes: SDL via ast_to_type_system
+    a2t = P.fn(SEM + "ast_to_type_system::ast_to_type_system")
     for fn_ in (CLI + "check::check_impl", CLI + "generate::run_generate"):
-        f = P.fn(fn_)
-        ok = any((call_name(c) or "").endswith("ast_to_type_system::ast_to_type_system") for c in f.walk() if c.get("k") == "Call") and \
-            any(c.get("k") == "MethodCall" and (call_name(c) or "").endswith("LoadedSchema::map_into") for c in f.walk())
-        R.check("R15-a", "schema-for-operations:" + f.name, ok, "operations are checked/printed against ast_to_type_system(SDL) or the introspected Schema",
-                "%s does not build the operation-side Schema through map_into(ast_to_type_system, borrowed)" % f.path, loc=f.loc())
+        f0 = P.fn(fn_)
+        f = inlined(P, f0)
+        conv = [c for c in f.walk() if c.get("k") == "Call" and call_name(c) == a2t.path] + \
+               [c for c in f.walk() if c.get("k") == "Path" and norm(c.get("def", "")) == a2t.path and c.get("dk") in ("Fn", "AssocFn")]
+        disp = [c for c in f.walk() if c.get("k") in ("MethodCall", "Call") and call_name(c) in {d.path for d in dispatchers}]
+        own = [m for m in matches_on(f, "LoadedSchema") if "GraphQL" in variant_table(m)
+               and any(call_name(x) == a2t.path for x in subnodes(variant_table(m)["GraphQL"]["body"]) if x.get("k") == "Call")]
+        key = "schema-for-operations:" + f0.name
+        if conv and (disp or own):
+            R.holds("R15-a", key, "operations are checked/printed against ast_to_type_system(SDL) or the introspected Schema", loc=f0.loc())
+        elif a2t.path not in P.reachable([f0]):
+            R.violated("R15-a", key, "%s never reaches ast_to_type_system: on the SDL route no Schema is built for the operation side" % f0.path, loc=f0.loc())
+        else:
+            R.undecided("R15-a", key, "%s reaches ast_to_type_system but not through a per-route dispatch this rule recognises" % f0.path, loc=f0.loc())
     # route selection by extension
-    k = P.fn(CLI + "schema_loader::schema_kind_by_path")
+    k = anchor(P, CLI + "schema_loader::schema_kind_by_path",
+               lambda g: g.path.startswith(CLI) and (g.sig_output or "").endswith("SchemaFileKind") and any("Path" in t for t in g.sig_inputs))
     lits = set(str_lits_in(k.body)) | {x.get("v") for x in k.walk() if x.get("k") == "PatExpr" and x.get("lk") == "str"}
     R.check("R15-a", "route-by-extension", {"graphql", "json"} <= lits, "`.graphql` -> SDL, `.json` -> introspection", "extension table is %s" % sorted(lits), loc=k.loc())
 
 
+def _kind_expr(pv, e):
+    return e is not None and has_field(pv.atoms(e), "IntrospectionType", "kind")
+
+
+def cond_kinds(pv, cond):
+    """the set of __TypeKind literals a condition accepts (`kind == "K"`, `"K" == kind`, `kind.eq("K")`, `matches!(kind, "A" | "B")`,
+    `if let "K" = kind`, `a || b`); None when the condition is not such a test"""
+    e = cond
+    while e.get("k") in ("DropTemps", "Use", "Paren") and "e" in e:
+        e = e["e"]
+    k = e.get("k")
+    if k == "Binary" and e.get("op") == "==":
+        for a, b in ((e["l"], e["r"]), (e["r"], e["l"])):
+            v = lit_value(b)
+            if isinstance(v, str) and _kind_expr(pv, a):
+                return {v}
+        return None
+    if k == "Binary" and e.get("op") == "||":
+        l, r = cond_kinds(pv, e["l"]), cond_kinds(pv, e["r"])
+        return (l | r) if l is not None and r is not None else None
+    if k == "MethodCall" and e.get("method") == "eq" and len(e["args"]) == 1:
+        for a, b in ((e["recv"], e["args"][0]), (e["args"][0], e["recv"])):
+            v = lit_value(b)
+            if isinstance(v, str) and _kind_expr(pv, a):
+                return {v}
+        return None
+    if k == "Match" and _kind_expr(pv, e["scrut"]):  # matches!(..)
+        out = set()
+        for arm in e["arms"]:
+            if lit_value(arm["body"]) is True and "guard" not in arm:
+                out |= {v for v in pat_lits(arm["pat"]) if isinstance(v, str)}
+            elif lit_value(arm["body"]) is not False:
+                return None
+        return out or None
+    if k == "LetExpr" and _kind_expr(pv, e.get("init")):
+        vs = {v for v in pat_lits(e["pat"]) if isinstance(v, str)}
+        return vs or None
+    return None
+
+
+def kind_guard(f, pv, idx):
+    """the __TypeKind literals under which nodes()[idx] of `f` may execute: the innermost enclosing positive test of the kind
+    (then-branch of a kind comparison, arm of a `match` over the kind with literal patterns).  Else-branches and catch-all arms
+    are skipped (the enclosing positive test, if any, still bounds the set).  -> (set, region node) | (None, None)"""
+    for ctx in enclosing_contexts(f, idx):
+        if ctx[0] == "if-then":
+            ks = cond_kinds(pv, ctx[1]["cond"])
+            if ks is not None:
+                return ks, ctx[1]["then"]
+        elif ctx[0] == "arm" and ctx[1] is not None and ctx[1].get("src") == "Normal" and _kind_expr(pv, ctx[1]["scrut"]):
+            ks = {v for v in pat_lits(ctx[2]["pat"]) if isinstance(v, str)}
+            if ks and "guard" not in ctx[2]:
+                return ks, ctx[2]["body"]
+    return None, None
+
+
+def ctor_sites(f, suffix):
+    """[(node index, variant name)] of constructions of enum variants `..::<suffix>::<Variant>` in f"""
+    out = []
+    for i, (x, _) in enumerate(f.nodes()):
+        d = None
+        if x.get("k") == "Path" and x.get("dk", "").startswith("Ctor"):
+            d = norm(x.get("def", ""))
+        elif x.get("k") == "Struct" and "rest" not in x and x.get("variant"):
+            d = norm(x["variant"])
+        if d and ("::" + suffix + "::") in ("::" + d):
+            out.append((i, d.split("::")[-1]))
+    return out
+
+
 def r15b(P, R):
-    at0 = P.fn(IN + "as_type")
+    def takes_type(g):
+        return g.path.startswith(INC) and any(t.endswith("IntrospectionType") for t in g.sig_inputs)
+    at0 = anchor(P, IN + "as_type", lambda g: takes_type(g) and "graphql_type_system::type::Type<" in (g.sig_output or ""))
     # the converter may delegate to helpers of its own module: analyse the function (reachable from as_type, in this module) that
     # actually tests the kind literals
-    cands = [P.fns[p] for p in P.reachable([at0]) if p.startswith(IN) and not P.fns[p].derived]
+    cands = [P.fns[p] for p in sorted(P.reachable([at0])) if p.startswith(INC) and not P.fns[p].derived]
     cands = [f for f in cands if "NON_NULL" in {x.get("v") for x in f.walk() if x.get("lk") == "str" and x.get("k") in ("Lit", "PatExpr")}]
     at = cands[0] if cands else at0
     rec_set = {f.path for f in cands} | {at0.path}
     lits = set(x.get("v") for x in at.walk() if x.get("lk") == "str" and x.get("k") in ("Lit", "PatExpr"))
     R.check("R15-b", "kinds:as_type", set(KINDS) | {"LIST", "NON_NULL"} <= lits, "all __TypeKind values handled",
             "as_type does not handle __TypeKind %s" % sorted((set(KINDS) | {"LIST", "NON_NULL"}) - lits), loc=at.loc())
-    pv = Prov(at)
-    for wrapper, ctor in (("LIST", "Type::List"), ("NON_NULL", "Type::NonNull")):
-        ifs = [i for i in at.walk() if i.get("k") == "If" and i["cond"].get("k") == "Binary" and lit_value(i["cond"]["r"]) == wrapper]
-        ok = False
-        for i in ifs:
-            made = [norm(x.get("def", "")) for x in subnodes(i["then"]) if x.get("k") == "Path" and x.get("dk", "").startswith("Ctor")]
-            rec = any(call_name(x) in rec_set for x in subnodes(i["then"]) if x.get("k") == "Call")
-            of = has_field(pv.atoms(i["then"]), IN + "IntrospectionType", "of_type")
-            if any(m.endswith(ctor) for m in made) and rec and of:
-                ok = True
-        R.check("R15-b", "wrapper:" + wrapper, ok, "%s unwraps ofType into %s" % (wrapper, ctor), "as_type does not map %s to %s over ofType" % (wrapper, ctor), loc=at.loc())
+    ati = inlined(P, at, pred=lambda g: g.path not in rec_set)
+    pv = Prov(ati)
+    sites = ctor_sites(ati, "Type")
+    for wrapper, variant in (("LIST", "List"), ("NON_NULL", "NonNull")):
+        key = "wrapper:" + wrapper
+        mine = [i for i, v in sites if v == variant]
+        if not mine:
+            built = any(v == variant for g in P.fns.values() if g.path.startswith(INC) and not g.derived and "::tests" not in g.path for _, v in ctor_sites(g, "Type"))
+            if built:
+                R.undecided("R15-b", key, "Type::%s is not built in %s itself" % (variant, at.path), loc=at.loc())
+            else:
+                R.violated("R15-b", key, "no function of the introspection crate builds Type::%s: a %s type reference cannot be represented on the JSON route" % (variant, wrapper), loc=at.loc())
+            continue
+        verdicts = []
+        for i in mine:
+            ks, region = kind_guard(ati, pv, i)
+            if ks is None:
+                verdicts.append(("undecided", "Type::%s is built under a condition this rule does not read as a test of `kind`" % variant))
+            elif wrapper not in ks:
+                verdicts.append(("violated", "Type::%s is built for kind %s, not for %s" % (variant, sorted(ks), wrapper)))
+            elif not has_field(pv.atoms(region), "IntrospectionType", "of_type"):
+                verdicts.append(("violated", "the %s branch builds Type::%s without reading ofType" % (wrapper, variant)))
+            elif ks != {wrapper}:
+                verdicts.append(("undecided", "Type::%s is built under kinds %s" % (variant, sorted(ks))))
+            elif not any(call_name(x) in rec_set for x in subnodes(region) if x.get("k") in ("Call", "MethodCall")):
+                verdicts.append(("undecided", "the %s branch does not convert ofType by recursion" % wrapper))
+            else:
+                verdicts.append(("holds", ""))
+        bad = [m for v, m in verdicts if v == "violated"]
+        und = [m for v, m in verdicts if v == "undecided"]
+        if bad:
+            R.violated("R15-b", key, "as_type does not map %s to Type::%s over ofType: %s" % (wrapper, variant, "; ".join(bad)), loc=at.loc())
+        elif und:
+            R.undecided("R15-b", key, "; ".join(und), loc=at.loc())
+        else:
+            R.holds("R15-b", key, "%s unwraps ofType into Type::%s" % (wrapper, variant), loc=at.loc())
     # type references nest arbitrarily deep (`[[[Float!]!]!]!`): no failure of the reference converter may depend on a counter
     for f in [P.fns[p] for p in sorted(rec_set)]:
         fpv = Prov(f)
@@ -99,21 +247,35 @@ def r15b(P, R):
         R.check("R15-b", "no-depth-limit:" + f.name, not bad, "no failure depends on a nesting counter",
                 "%s fails when a counter parameter (%s) crosses a bound (line %s): a type reference nested deeper than that is rejected on the "
                 "JSON route (or its field's arguments are silently dropped) while the SDL route accepts it" % (f.path, sorted(counters), bad), loc=f.loc())
-    ad = P.fn(IN + "as_type_definition")
+    ad0 = anchor(P, IN + "as_type_definition", lambda g: takes_type(g) and "TypeDefinition<" in (g.sig_output or ""))
+    ad = inlined(P, ad0, pred=lambda g: g.path not in rec_set)
+    pvd = Prov(ad)
+    guards = []   # (variant, kinds | None)
+    for i, v in ctor_sites(ad, "TypeDefinition"):
+        guards.append((v, kind_guard(ad, pvd, i)[0]))
+    elsewhere = {v for g in P.fns.values() if g.path.startswith("nitrogql_introspection::") and not g.derived and "::tests" not in g.path
+                 for _, v in ctor_sites(g, "TypeDefinition")}
     for kind, variant in sorted(KINDS.items()):
-        ifs = [i for i in ad.walk() if i.get("k") == "If" and i["cond"].get("k") == "Binary" and lit_value(i["cond"]["r"]) == kind]
-        ok = False
-        for i in ifs:
-            made = [norm(x.get("def", "")).split("::")[-1] for x in subnodes(i["then"]) if x.get("k") == "Path" and x.get("dk", "").startswith("Ctor") and "TypeDefinition::" in norm(x.get("def", ""))]
-            if made == [variant]:
-                ok = True
-        R.check("R15-b", "definition-kind:" + kind, ok, "%s -> TypeDefinition::%s" % (kind, variant), "as_type_definition does not build TypeDefinition::%s for kind %s" % (variant, kind), loc=ad.loc())
+        key = "definition-kind:" + kind
+        mine = [ks for v, ks in guards if v == variant]
+        others = sorted(v for v, ks in guards if v != variant and ks == {kind})
+        if others:
+            R.violated("R15-b", key, "as_type_definition builds TypeDefinition::%s for kind %s (expected TypeDefinition::%s)" % ("/".join(others), kind, variant), loc=ad0.loc())
+        elif any(ks == {kind} for ks in mine):
+            R.holds("R15-b", key, "%s -> TypeDefinition::%s" % (kind, variant), loc=ad0.loc())
+        elif not mine and variant not in elsewhere:
+            R.violated("R15-b", key, "no function of the introspection crate builds TypeDefinition::%s: kind %s is lost on the JSON route" % (variant, kind), loc=ad0.loc())
+        elif mine and all(ks is not None and kind not in ks for ks in mine):
+            R.violated("R15-b", key, "as_type_definition does not build TypeDefinition::%s for kind %s: it is built only for kind literal(s) %s"
+                       % (variant, kind, sorted(set().union(*mine))), loc=ad0.loc())
+        else:
+            R.undecided("R15-b", key, "TypeDefinition::%s is built under a condition this rule does not read as a test of `kind` == %s" % (variant, kind), loc=ad0.loc())
 
 
 def r15c(P, R):
     # introspection structs: every field is read by the converter
     scope = sorted(p for p in P.fns if p.startswith("nitrogql_introspection::") and not P.fns[p].derived)
-    adts = [a for a in P.adts if a.startswith(IN + "Introspection") or a == IN + "NameObj"]
+    adts = [a for a in P.adts if a.startswith(INC) and (a.split("::")[-1].startswith("Introspection") or a.split("::")[-1] == "NameObj")]
     n = 0
     reads = reads_in(P, scope)
     for ap in sorted(adts):
@@ -125,7 +287,7 @@ def r15c(P, R):
                     "introspection field `%s.%s` is deserialised but never read: that part of the schema is lost on the JSON route" % (ap.split("::")[-1], fld))
     R.floor("R15-c", "introspection struct fields", n, 35)
     # Schema -> AST (printing) reads every component of the type-system structs, except the listed ones
-    t2a = sorted(p for p in P.reachable([P.fn(SEM + "type_system_to_ast::type_system_to_ast")]) if p.startswith(SEM + "type_system_to_ast"))
+    t2a = sorted(p for p in P.reachable([P.fn(SEM + "type_system_to_ast::type_system_to_ast")]) if p.startswith(SEM) and not P.fns[p].derived)
     exempt = {
         ("Field", "deprecation"): "JSDoc only; printers read it from the Schema, not from the converted AST",
         ("InputValue", "deprecation"): "JSDoc only",
@@ -157,47 +319,89 @@ def r15c(P, R):
     R.floor("R15-c", "AST fields read by ast_to_type_system", k, 30)
     # kind-for-kind conversion in both directions
     for fn_, enum in ((SEM + "type_system_to_ast::convert_type_definition", "TypeDefinition"), (SEM + "ast_to_type_system::convert_type_definition", "TypeDefinition")):
-        f = P.fn(fn_)
+        f0 = P.fn(fn_)
+        f = inlined(P, f0)
         for mm in f.walk():
             if mm.get("k") == "Match" and mm.get("src") == "Normal" and peel_ty(mm["scrut"].get("t", "")).split("<")[0].endswith("TypeDefinition"):
                 tab = variant_table(mm)
-                for v, arm in tab.items():
-                    made = [norm(x.get("def", "")).split("::")[-1] for x in subnodes(arm["body"]) if x.get("k") == "Path" and x.get("dk", "").startswith("Ctor")
-                            and "TypeDefinition::" in norm(x.get("def", ""))]
-                    R.check("R15-c", "kind-preserved:%s:%s" % (short(f.path), v), made[:1] == [v], "%s stays %s" % (v, v),
-                            "%s converts a %s definition into %s" % (f.path, v, made[:1]), loc=f.loc())
-    # lossless element conversion
+                for v, arm in sorted(tab.items()):
+                    made = {norm(x.get("def", "")).split("::")[-1] for x in subnodes(arm["body"]) if x.get("k") == "Path" and x.get("dk", "").startswith("Ctor")
+                            and "TypeDefinition::" in norm(x.get("def", ""))}
+                    key = "kind-preserved:%s:%s" % (short(f0.path), v)
+                    if made == {v}:
+                        R.holds("R15-c", key, "%s stays %s" % (v, v), loc=f0.loc())
+                    elif made and v not in made and v != "_":
+                        R.violated("R15-c", key, "%s converts a %s definition into %s" % (f0.path, v, sorted(made)), loc=f0.loc())
+                    else:
+                        R.undecided("R15-c", key, "the %s arm of %s builds %s; kind preservation not decided" % (v, f0.path, sorted(made) or "no TypeDefinition"), loc=f0.loc())
+    # lossless element conversion: no adaptor that drops by position, stops early, reorders or de-duplicates.  `filter`/`filter_map`
+    # are the iterator spelling of `if .. { push }` (which the converters use for optional parts): their predicate is not decided.
+    conditional = {"filter", "filter_map"}
     for p in t2a + [q for q in a2t if q.startswith(SEM + "ast_to_type_system")]:
         f = P.fns[p]
-        lossy = [c["method"] for c in f.walk() if c.get("k") == "MethodCall" and c["method"] in LOSSY_OR_REORDERING]
+        calls = [c for c in f.walk() if c.get("k") == "MethodCall" and c["method"] in LOSSY_OR_REORDERING
+                 and not peel_ty(c.get("recv_ty", "")).startswith(("std::collections::hash::", "hashbrown::", "alloc::collections::btree::", "indexmap::"))]
+        lossy = [c["method"] for c in calls if c["method"] not in conditional]
+        cond = [c["method"] for c in calls if c["method"] in conditional]
         if lossy:
             R.violated("R15-c", "lossy:" + short(f.path), "%s applies %s while converting: members are dropped on one route" % (f.path, lossy), loc=f.loc())
+        elif cond:
+            R.undecided("R15-c", "lossy:" + short(f.path), "%s selects members with %s while converting; whether a member of the schema can be dropped is not decided" % (f.path, cond), loc=f.loc())
     R.holds("R15-c", "lossy:none", "converters apply no filtering/reordering adaptor")
 
 
 def r15d(P, R):
     """root operation types are carried under their own operation on every route"""
-    f = P.fn(SEM + "type_system_to_ast::type_system_to_ast")
+    f0 = P.fn(SEM + "type_system_to_ast::type_system_to_ast")
+
+    def op_of(e):
+        ops = [norm(x.get("def", "")).split("::")[-1] for x in subnodes(e) if x.get("k") == "Path" and "OperationType::" in norm(x.get("def", ""))]
+        return ops[0] if len(ops) == 1 and ops[0] in OPS else None
+    # (operation, root type) entries, whether pushed one by one or listed in an array/iterator chain; looked for in the function
+    # itself first (exact provenance), then with helper bodies attached (call sites of one helper share its parameters there)
+    for f in (f0, inlined(P, f0)):
+        entries = [t for t in f.walk() if t.get("k") == "Tup" and len(t["es"]) == 2 and op_of(t["es"][0])]
+        if entries:
+            break
     pv = Prov(f)
-    pushes = [c for c in f.walk() if c.get("k") == "MethodCall" and c["method"] == "push" and c["args"] and c["args"][0].get("k") == "Tup"]
-    R.floor("R15-d", "root type entries (Schema -> AST)", len(pushes), 3)
+    R.floor("R15-d", "root type entries (Schema -> AST)", len(entries), 3)
     seen = set()
-    for c in pushes:
-        tup = c["args"][0]
-        op = [norm(x.get("def", "")).split("::")[-1] for x in subnodes(tup["es"][0]) if x.get("k") == "Path" and "OperationType::" in norm(x.get("def", ""))]
+    for tup in entries:
+        op = op_of(tup["es"][0])
         flds = {x[2] for x in pv.atoms(tup["es"][1]) if x[0] == "field" and x[1].endswith("root_types::RootTypes")}
-        if op:
-            seen.add(op[0])
-            R.check("R15-d", "root:to_ast:" + op[0], flds == {OPS[op[0]]}, "%s <- root_types.%s" % (op[0], OPS[op[0]]),
-                    "type_system_to_ast records root_types.%s as the %s root type" % (sorted(flds), op[0]), loc=f.loc())
-    R.check("R15-d", "root:to_ast:all", seen == set(OPS), "query, mutation and subscription roots are all carried", "root types carried: %s" % sorted(seen), loc=f.loc())
-    g = P.fn(SEM + "ast_to_type_system::convert_schema_definition")
+        seen.add(op)
+        key = "root:to_ast:" + op
+        if flds == {OPS[op]}:
+            R.holds("R15-d", key, "%s <- root_types.%s" % (op, OPS[op]), loc=f0.loc())
+        elif flds and OPS[op] not in flds:
+            R.violated("R15-d", key, "type_system_to_ast records root_types.%s as the %s root type" % (sorted(flds), op), loc=f0.loc())
+        else:
+            R.undecided("R15-d", key, "the %s entry is computed from root_types.%s" % (op, sorted(flds) or "?"), loc=f0.loc())
+    if entries:
+        mentioned = {norm(x.get("def", "")).split("::")[-1] for x in f.walk() if x.get("k") in ("Path", "PatExpr", "TupleStruct") and "OperationType::" in norm(x.get("def", "") or "")}
+        missing = set(OPS) - seen
+        if not missing:
+            R.holds("R15-d", "root:to_ast:all", "query, mutation and subscription roots are all carried", loc=f0.loc())
+        elif missing - mentioned:
+            R.violated("R15-d", "root:to_ast:all", "root types carried: %s; OperationType::%s is mentioned nowhere in type_system_to_ast, so that root is lost "
+                       "when printing an introspection schema" % (sorted(seen), "/".join(sorted(missing - mentioned))), loc=f0.loc())
+        else:
+            R.undecided("R15-d", "root:to_ast:all", "root types carried as (operation, type) entries: %s; %s handled in a shape this rule does not read"
+                        % (sorted(seen), sorted(missing)), loc=f0.loc())
+    g0 = P.fn(SEM + "ast_to_type_system::convert_schema_definition")
+    g = inlined(P, g0)
     for m in matches_on(g, "OperationType"):
         tab = variant_table(m)
-        for op, fld in OPS.items():
+        for op, fld in sorted(OPS.items()):
             arm = tab.get(op)
-            calls = [x["method"] for x in subnodes(arm["body"]) if x.get("k") == "MethodCall"] if arm else []
-            R.check("R15-d", "root:from_ast:" + op, "set_" + fld in calls, "%s -> set_%s" % (op, fld), "%s root is stored through %s" % (op, calls), loc=g.loc())
+            calls = sorted({x["method"] for x in subnodes(arm["body"]) if x.get("k") == "MethodCall" and x["method"].startswith("set_") and x["method"].endswith("_type")}) if arm else []
+            key = "root:from_ast:" + op
+            if "set_" + fld in calls and len(calls) == 1:
+                R.holds("R15-d", key, "%s -> set_%s" % (op, fld), loc=g0.loc())
+            elif calls and "set_" + fld not in calls:
+                R.violated("R15-d", key, "%s root is stored through %s" % (op, calls), loc=g0.loc())
+            else:
+                R.undecided("R15-d", key, "the %s arm stores the root through %s" % (op, calls or "no RootTypes setter this rule sees"), loc=g0.loc())
     # roots accumulate: SchemaBuilder::set_root_types is get-or-create, or else it is called once per schema definition (not per root)
     sb = P.fn("graphql_type_system::builder::SchemaBuilder::set_root_types")
     writes = []
@@ -228,19 +432,33 @@ def r15d(P, R):
     R.check("R15-d", "roots-accumulate", not (replacing and in_loop), "root types set one by one end up in the same RootTypes node",
             "set_root_types replaces the RootTypes node on every call (%s) and %s calls it once per root inside a loop: of `schema { query: Q "
             "mutation: M }` only the last root survives on the SDL route" % (replacing, in_loop), loc=sb.loc())
-    h = P.fn(IN + "introspection")
+    h0 = P.fn(IN + "introspection")
+    for h in (h0, inlined(P, h0)):
+        if any(c.get("k") == "MethodCall" and c["method"] in ("set_" + fld for fld in OPS.values()) for c in h.walk()):
+            break
     pvh = Prov(h)
-    for op, fld in OPS.items():
-        calls = [c for c in h.walk() if c.get("k") == "MethodCall" and c["method"] == "set_" + fld]
-        ok = len(calls) == 1 and has_field(pvh.atoms(calls[0]["args"][0]), IN + "IntrospectionSchema", fld)
-        R.check("R15-d", "root:from_json:" + op, ok, "%s <- __schema.%s" % (fld, fld), "the JSON route sets %s from another key" % fld, loc=h.loc())
+    for op, fld in sorted(OPS.items()):
+        calls = [c for c in h.walk() if c.get("k") == "MethodCall" and c["method"] == "set_" + fld and c["args"]]
+        key = "root:from_json:" + op
+        if not calls:
+            R.undecided("R15-d", key, "no call of set_%s found in %s" % (fld, h0.path), loc=h0.loc())
+            continue
+        got = set()
+        for c in calls:
+            got |= {x[2] for x in pvh.atoms(c["args"][0]) if x[0] == "field" and x[1].endswith("::IntrospectionSchema")}
+        if fld in got and not (got & set(OPS.values())) - {fld}:
+            R.holds("R15-d", key, "%s <- __schema.%s" % (fld, fld), loc=h0.loc())
+        elif fld not in got:
+            R.violated("R15-d", key, "the JSON route sets %s from %s" % (fld, sorted(got) or "something other than __schema.%s" % fld), loc=h0.loc())
+        else:
+            R.undecided("R15-d", key, "set_%s receives a value derived from __schema.%s" % (fld, sorted(got)), loc=h0.loc())
 
 
 def r15e(P, R):
     """Option<bool> flags of the introspection result are consumed by their value, not by their presence"""
     flags = []
     for ap, adt in P.adts.items():
-        if ap.startswith(IN) and adt.kind == "Struct":
+        if ap.startswith(INC) and adt.kind == "Struct":
             for fld, ty in adt.field_types().items():
                 if ty == "core::option::Option<bool>":
                     flags.append((ap, fld))
